@@ -76,3 +76,92 @@ Definition lib_sig_parse (der_decode : bytes -> option (Z * Z)) (sig : bytes) : 
   else if (Z.of_nat (length sig) =? 64) then
     Some (of_be (firstn 32 sig), of_be (skipn 32 sig), 1)
   else None.
+
+(* ---------------------------------------------------------------- the decoder the library really runs
+   encoding.convert_der_sig -> fastecdsa DEREncoder.decode_signature (encoding/der.py, encoding/asn1.py).
+   It is laxer than BIP66: long-form lengths are accepted (0x81, and 0x82/0x84/0x88 read in NATIVE = little-endian
+   byte order by struct.unpack("=H"/"=L"/"=Q")), bytes after the s INTEGER inside the SEQUENCE are ignored;
+   it is stricter in one place: an INTEGER whose body is the single byte 00 raises IndexError. *)
+
+(* asn1.parse_asn1_length: Some (body, remaining); None = any exception (ASN1EncodingError, struct.error,
+   ValueError "negative shift count" for 0x80, KeyError for more than 8 length bytes) *)
+Definition asn1_split (len : Z) (d : bytes) : option (bytes * bytes) :=
+  if Z.of_nat (length d) <? len then None
+  else Some (firstn (Z.to_nat len) d, skipn (Z.to_nat len) d).
+
+Definition asn1_length (data : bytes) : option (bytes * bytes) :=
+  match data with
+  | [] => None
+  | b0 :: data1 =>
+      if bz b0 <? 128 then asn1_split (bz b0) data1
+      else
+        let count := bz b0 - 128 in
+        if (count =? 1) || (count =? 2) || (count =? 4) || (count =? 8) then
+          let c := Z.to_nat count in
+          if (length data1 <? c)%nat then None
+          else asn1_split (of_le (firstn c data1)) (skipn c data1)
+        else None
+  end.
+
+(* asn1.parse_asn1_int *)
+Definition asn1_int (data : bytes) : option (bytes * bytes) :=
+  match data with
+  | t :: rest => if (length data <? 3)%nat || negb (bz t =? 2) then None else asn1_length rest
+  | [] => None
+  end.
+
+(* der.py _validate_int_bytes, including the IndexError on an empty body and on the body [00] *)
+Definition lib_int_ok (b : bytes) : bool :=
+  match b with
+  | [] => false
+  | h :: tl =>
+      negb (high_set h) &&
+      match tl with
+      | [] => negb (bz h =? 0)
+      | h2 :: _ => negb ((bz h =? 0) && negb (high_set h2))
+      end
+  end.
+
+Definition lib_der_dec (sig : bytes) : option (Z * Z) :=
+  match sig with
+  | t :: rest =>
+      if bz t =? 48 then
+        match asn1_length rest with
+        | Some (sq, []) =>
+            match asn1_int sq with
+            | Some (rb, sdata) =>
+                match asn1_int sdata with
+                | Some (sb, _) =>
+                    if lib_int_ok rb && lib_int_ok sb then Some (of_be rb, of_be sb) else None
+                | None => None
+                end
+            | None => None
+            end
+        | _ => None
+        end
+      else None
+  | [] => None
+  end.
+
+(* Signature.parse_bytes with the decoder the library uses *)
+Definition lib_parse (sig : bytes) : option (Z * Z * Z) := lib_sig_parse lib_der_dec sig.
+
+(* what a strict reader does with the same bytes: BIP66 form (signature ++ hash type) first, otherwise the
+   library's documented 64-byte raw form r||s (hash type SIGHASH_ALL) *)
+Definition spec_parse (sig : bytes) : option (Z * Z * Z) :=
+  if is_strict_der sig then
+    match der_dec (removelast sig) with
+    | Some (r, s) => Some (r, s, bz (last sig x00))
+    | None => None
+    end
+  else if (Z.of_nat (length sig) =? 64) then
+    Some (of_be (firstn 32 sig), of_be (skipn 32 sig), 1)
+  else None.
+
+(* finding classes (decidable from the signature bytes alone) *)
+(* short_der_rejected: a BIP66-valid signature (with hash type) of at most 64 bytes is never read as DER *)
+Definition short_der (sig : bytes) : bool := is_strict_der sig && (Z.of_nat (length sig) <=? 64).
+(* lax_der_accepted: longer than 64 bytes, tag 0x30, not BIP66-valid, yet decoded by the library *)
+Definition lax_der (sig : bytes) : bool :=
+  (64 <? Z.of_nat (length sig)) && starts_with sig 48 && negb (is_strict_der sig) &&
+  match lib_der_dec (removelast sig) with Some _ => true | None => false end.
